@@ -168,6 +168,27 @@ def families(seed, tier):
              op("dialdead", ep=d, to=o), await_(d, "dialfail", p=o, ms=6000), op("pump", ms=100), op("dialdirect", ep=d, to=o),
              await_("X", "up"), await_("Y", "up"), op("settle", quiet=200, ms=2000), val(d, "accept", wait=0), policy("X", "accept"),
              policy("Y", "accept"), op("pump", ms=200), open_(o), await_(o, "answered", p=d), op("pump", ms=200)])
+    # the local user's send races with the remote's close: the first thing the held Connection task of D notices is the
+    # failed write on its outbound substream (not the end of the inbound one); the connection stays up; both users
+    # see Closed; then D opens again (must be answered) / O opens first (must be served), then D
+    nsr = 0
+    for r2 in range(1 if tier == "quick" else 3):
+        for (d, o) in (("X", "Y"), ("Y", "X")):
+            for (m, sz, cnt) in (("s", "min", 2), ("a", "1k", 2), ("s", "40k", 3), ("a", "40k", 2)):
+                nsr += 1
+                mirror = nsr % 2 == 0
+                # Over yamux (tcp / ws) a write to a stream the remote has closed and dropped is silently discarded (yamux 0.13
+                # sends no reset for it), so there the end of the inbound substream is what the task sees; over QUIC the
+                # remote's dropped receive half stops the stream and the write fails first.
+                # (no cut in this family: a long QUIC idle timeout keeps the connection up while an answer is awaited)
+                add("send-races-remote-close", dict(cfg(0, sync=16, asyn=8, mx=262144, perturb=nsr % 3), quic_idle=900),
+                    [policy("X", "accept"), policy("Y", "accept"), open_(d), await_(d, "open", p=o), await_(o, "open", p=d),
+                     send(d, "s", 1, "min"), op("pump", ms=100),
+                     op("stall", ep=d, cls="conn", on=True), send(d, m, cnt, sz), close_(o), op("pump", ep=o, ms=150), op("pump", ms=50 + 50 * (nsr % 3)),
+                     op("stall", ep=d, cls="conn", on=False), await_(d, "closed", p=o, ms=4000), await_(o, "closed", p=d, ms=4000),
+                     op("settle", quiet=300, ms=3000)] +
+                    ([open_(o), await_(o, "answered", p=d, ms=4000), op("pump", ms=200), close_(o), close_(d), op("settle", quiet=300, ms=3000)] if mirror else []) +
+                    [open_(d), await_(d, "answered", p=o, ms=4000), await_(d, "open", p=o, ms=1500), send(d, "s", 1, "min"), op("pump", ms=200)])
     # dialing on demand / dialing disabled
         add("dial-on-open", cfg(0, dial=True, perturb=1), [policy("X", "accept"), policy("Y", "accept"), op("cut"), await_("X", "down"), await_("Y", "down"),
                                                            open_("X"), await_("X", "open", ms=10000)])
